@@ -424,24 +424,91 @@ bool auditStructure(const View& v, const Ctx& c, bool medianScaled, bool boundsF
   return ok;
 }
 
-// clause: cumulative class queries = prefix sums (queried at the class values)
+// the five class queries with argument x, which designates class k (prefix sum of the classes below = pre).
+// tag "": x is the stored class value; otherwise x is another representation of that class value (see below)
+void cumulativeProbe(const DD& d, const View& v, const Ctx& c, double x, size_t k, double pre, const string& tag)
+{
+  double inf = d.getInfCumulativeProbability(x), iinf = d.getIInfCumulativeProbability(x);
+  double sup = d.getSupCumulativeProbability(x), ssup = d.getSSupCumulativeProbability(x);
+  double post = pre + v.probs[k];
+  string pos = v.n == 1 ? "only" : k == 0 ? "first" : k + 1 == v.n ? "last" : "interior";
+  string cl = c.fam + ":" + pos + (tag.empty() ? "" : ":" + tag);
+  string as = tag.empty() ? "" : " [argument " + vrt::hexd(x) + " designates class " + str(k) + " = " + vrt::hexd(v.cats[k]) + " (" + tag + ", precision " + str(v.prec) + ")]";
+  vrt::expect(std::fabs(inf - pre) <= 1e-9, "cumulative.inf", cl, [&] { return c.W("Pr(x<" + str(x) + ")=" + str(inf) + " expected prefix sum " + str(pre) + as + "; " + viewStr(v)); });
+  vrt::expect(std::fabs(iinf - post) <= 1e-9, "cumulative.iinf", cl, [&] { return c.W("Pr(x<=" + str(x) + ")=" + str(iinf) + " expected " + str(post) + as + "; " + viewStr(v)); });
+  vrt::expect(std::fabs(sup - (1 - post)) <= 1e-9, "cumulative.sup", cl, [&] { return c.W("Pr(x>" + str(x) + ")=" + str(sup) + " expected " + str(1 - post) + as + "; " + viewStr(v)); });
+  vrt::expect(std::fabs(ssup - (1 - pre)) <= 1e-9, "cumulative.ssup", cl, [&] { return c.W("Pr(x>=" + str(x) + ")=" + str(ssup) + " expected " + str(1 - pre) + as + "; " + viewStr(v)); });
+  double pk = d.getProbability(x);
+  vrt::expect(vrt::sameDouble(pk, v.probs[k]), "cumulative.point", cl, [&] { return c.W("getProbability(value " + str(x) + ")=" + str(pk) + " expected " + str(v.probs[k]) + as); });
+}
+
+// Class values are matched with the tolerance of the distribution ("category values that differ less than
+// [precision()] will be considered identical", AbstractDiscreteDistribution): an argument y that is not the
+// stored representation of a class value but lies within that tolerance of it designates the same class.
+// True only when this is beyond doubt: y is closer to the stored value than 0.95*precision minus the rounding of
+// the comparator's own arithmetic (y - precision), i.e. safely inside the documented tolerance.
+bool designates(double y, double key, double prec)
+{
+  if (!std::isfinite(y) || !std::isfinite(key)) return false;
+  double m = std::max(std::max(std::fabs(y), std::fabs(key)), prec);
+  double u = std::nextafter(m, INFINITY) - m;
+  return std::fabs(y - key) + 2 * u <= 0.95 * prec;
+}
+// ... and no other class is anywhere near y (within 4 x precision): the designated class is unambiguous
+bool isolatedClass(const View& v, size_t k, double y)
+{
+  if (k > 0 && !(y - v.cats[k - 1] > 4 * v.prec)) return false;
+  if (k + 1 < v.n && !(v.cats[k + 1] - y > 4 * v.prec)) return false;
+  return true;
+}
+
+// clause: cumulative class queries = prefix sums; queried with the stored class values and with arguments that
+// designate the same class without being bit-identical to the stored value (one unit in the last place above /
+// below, as produced by arithmetic on class values, and about half the tolerance above / below)
 void auditCumulative(const DD& d, const View& v, const Ctx& c)
 {
   double pre = 0;
   for (size_t k = 0; k < v.n; ++k)
   {
     double x = v.cats[k];
-    double inf = d.getInfCumulativeProbability(x), iinf = d.getIInfCumulativeProbability(x);
-    double sup = d.getSupCumulativeProbability(x), ssup = d.getSSupCumulativeProbability(x);
-    double post = pre + v.probs[k];
-    string pos = v.n == 1 ? "only" : k == 0 ? "first" : k + 1 == v.n ? "last" : "interior";
-    vrt::expect(std::fabs(inf - pre) <= 1e-9, "cumulative.inf", c.fam + ":" + pos, [&] { return c.W("Pr(x<" + str(x) + ")=" + str(inf) + " expected prefix sum " + str(pre) + "; " + viewStr(v)); });
-    vrt::expect(std::fabs(iinf - post) <= 1e-9, "cumulative.iinf", c.fam + ":" + pos, [&] { return c.W("Pr(x<=" + str(x) + ")=" + str(iinf) + " expected " + str(post) + "; " + viewStr(v)); });
-    vrt::expect(std::fabs(sup - (1 - post)) <= 1e-9, "cumulative.sup", c.fam + ":" + pos, [&] { return c.W("Pr(x>" + str(x) + ")=" + str(sup) + " expected " + str(1 - post) + "; " + viewStr(v)); });
-    vrt::expect(std::fabs(ssup - (1 - pre)) <= 1e-9, "cumulative.ssup", c.fam + ":" + pos, [&] { return c.W("Pr(x>=" + str(x) + ")=" + str(ssup) + " expected " + str(1 - pre) + "; " + viewStr(v)); });
-    double pk = d.getProbability(x);
-    vrt::expect(vrt::sameDouble(pk, v.probs[k]), "cumulative.point", c.fam + ":" + pos, [&] { return c.W("getProbability(value " + str(x) + ")=" + str(pk) + " expected " + str(v.probs[k])); });
-    pre = post;
+    cumulativeProbe(d, v, c, x, k, pre, "");
+    if (std::isfinite(x))
+    {
+      const double cand[4] = { std::nextafter(x, INFINITY), std::nextafter(x, -INFINITY), x + 0.45 * v.prec, x - 0.45 * v.prec };
+      bool any = false;
+      for (int j = 0; j < 4; ++j)
+      {
+        double y = cand[j];
+        if (y == x || (j >= 2 && y == cand[j - 2])) continue;
+        if (!designates(y, x, v.prec) || !isolatedClass(v, k, y)) continue;
+        cumulativeProbe(d, v, c, y, k, pre, j % 2 == 0 ? "within-tolerance-above" : "within-tolerance-below");
+        any = true;
+      }
+      if (any) vrt::cover(c.fam + ":cumulative:argument-within-tolerance");
+      else vrt::counted("unjudged.cumulative-tolerance-below-resolution"); // one ulp of the value exceeds the tolerance, or classes closer than 4 x tolerance
+    }
+    pre += v.probs[k];
+  }
+}
+
+// compounds: the class values of the nested distributions / components are the natural arguments of the
+// compound's class queries; a nested value can be merged into a compound class stored under a slightly
+// different key (another component's value, the invariant).  ys: nested class values.
+void auditCumulativeNested(const DD& d, const View& v, const Ctx& c, const Vdouble& ys)
+{
+  for (double y : ys)
+  {
+    double pre = 0;
+    for (size_t k = 0; k < v.n; ++k)
+    {
+      if (y != v.cats[k] && designates(y, v.cats[k], v.prec) && isolatedClass(v, k, y))
+      {
+        cumulativeProbe(d, v, c, y, k, pre, y > v.cats[k] ? "nested-value-above" : "nested-value-below");
+        vrt::cover(c.fam + ":cumulative:nested-value-merged");
+        break;
+      }
+      pre += v.probs[k];
+    }
   }
 }
 
@@ -882,6 +949,7 @@ bool auditInvMixed(const DD& d, Node& m, Ctx c, vrt::Rng& rng)
     vrt::expect(same, "compound.invariant-classes", c.cls, [&] { return c.W("classes are not {invariant " + str(m.inv) + " with p=" + str(m.a) + "} + (1-p)*nested (nested values " + vrt::vecStr(nc, 40) + " probs " + vrt::vecStr(np, 40) + "); " + viewStr(v)); });
   }
   auditCumulative(d, v, c);
+  auditCumulativeNested(d, v, c, nc);
   if (!sOk) return true;
   auditLookup(d, v, c, rng);
   {
@@ -980,6 +1048,7 @@ bool auditMixture(const DD& d, Node& m, Ctx c, vrt::Rng& rng)
     vrt::expect(same, "compound.mixture-classes", c.cls, [&] { return c.W("class " + str(badi) + " probability " + str(v.probs[badi]) + " expected sum of weight*component probability = " + str(exp_) + "; " + viewStr(v)); });
   }
   auditCumulative(d, v, c);
+  auditCumulativeNested(d, v, c, all);
   if (!sOk) return true;
   auditLookup(d, v, c, rng);
   // P and E of the mixture = weighted sums of the components', and consistent on the mixture's domain
@@ -1452,6 +1521,7 @@ int main(int argc, char** argv)
     "domains on which the parent's mass is below 0.02 (but not zero) are unjudged; zero-mass domains: structural clauses only",
     "quantiles are only exercised for probabilities in [1e-4, 1-1e-4]",
     "class-count changes are only applied to trees whose leaves are all discretised continuous families (simple / constant have a user-given class count)",
+    "cumulative class queries are made with the stored class values and with arguments within the documented tolerance of a class value (1 ulp and 0.45 x precision() above/below, nested class values merged into a compound class); judged only when the argument is closer than 0.95 x precision() minus rounding and no other class lies within 4 x precision()",
     "lookup on an interior bound accepts either neighbouring class; lookups outside the domain are unjudged (must not abort)",
     "qProb of simple / constant: any generalised-inverse convention accepted; mixture qProb may raise the library's exception",
   };
